@@ -84,8 +84,49 @@ def gen_burst() -> str:
     out.append(f"def dtOfRate12 : Nat := {int(Rate12Data.get_data_type().value)}")
     out.append(f"def dtOfRate34 : Nat := {int(Rate34Data.get_data_type().value)}")
     out.append(f"def dtOfRate1 : Nat := {int(Rate1Data.get_data_type().value)}")
+    out.append("")
+    out += entry_tables()
     out.append("\nend Dmr.Gen.Burst\n")
     return "\n".join(out)
+
+
+def entry_tables():
+    """what `Burst.from_mmdvm` / `Burst.from_hytera_ipsc` dispatch on (enum values; the vocoder / wakeup classification by calling
+    `SlotType.is_vocoder` / `HyteraIPSC.is_wakeup`; the timeslot attribute by making a burst through `from_hytera_ipsc`)"""
+    from okdmr.dmrlib.etsi.layer2.burst import Burst
+    from okdmr.dmrlib.etsi.layer2.elements.sync_patterns import SyncPatterns
+    from okdmr.dmrlib.hytera.hytera_ipsc import HyteraIPSC
+    from okdmr.dmrlib.hytera.ipsc_elements.call_type import CallType
+    from okdmr.dmrlib.hytera.ipsc_elements.frame_type import FrameType
+    from okdmr.dmrlib.hytera.ipsc_elements.packet_type import PacketType
+    from okdmr.dmrlib.hytera.ipsc_elements.slot_type import SlotType as IpscSlotType
+    from okdmr.dmrlib.hytera.ipsc_elements.timeslot import Timeslot
+    from okdmr.kaitai.homebrew.mmdvm2020 import Mmdvm2020
+
+    def ipsc(ct=CallType.GroupCall, st=IpscSlotType.VoiceFrameA, ts=Timeslot.Timeslot_1):
+        voice = bitarray([0] * 108) + int2ba(int(SyncPatterns.BsSourcedVoice.value), length=48) + bitarray([0] * 108)
+        return HyteraIPSC(call_type=ct, frame_type=FrameType.Voice, packet_type=PacketType.TypeA, slot_type=st, timeslot=ts, sequence_number=0,
+                          color_code=1, destination_radio_id=1, source_radio_id=2, payload=voice.tobytes())
+
+    out = []
+    out.append("/-- value of `Mmdvm2020.Timeslots.timeslot_1` -/")
+    out.append(f"def mmdvmTimeslot1 : Nat := {int(Mmdvm2020.Timeslots.timeslot_1.value)}\n")
+    out.append("/-- Hytera IPSC `SlotType` / `CallType` member values -/")
+    out.append(f"def ipscSlotTypes : List Nat := {lnats([int(m.value) for m in IpscSlotType], per_line=8)}")  # noqa: F821
+    out.append(f"def ipscCallTypes : List Nat := {lnats([int(m.value) for m in CallType], per_line=8)}")  # noqa: F821
+    out.append("/-- slot types for which `SlotType.is_vocoder` holds -/")
+    out.append(f"def ipscVocoderSlots : List Nat := {lnats([int(m.value) for m in IpscSlotType if IpscSlotType.is_vocoder(m)], per_line=8)}")  # noqa: F821
+    out.append(f"def ipscSlotSync : Nat := {int(IpscSlotType.VoiceOrDataSync.value)}")
+    out.append(f"def ipscSlotWakeup : Nat := {int(IpscSlotType.Wakeup.value)}")
+    out.append("/-- call types for which `HyteraIPSC.is_wakeup` holds whatever the slot type -/")
+    out.append(f"def ipscWakeupCalls : List Nat := {lnats([int(ct.value) for ct in CallType if ipsc(ct=ct, st=IpscSlotType.CSBK).is_wakeup()], per_line=8)}")  # noqa: F821
+    ts = []
+    for m in Timeslot:
+        b = Burst.from_hytera_ipsc(ipsc(ts=m).as_ipsc_bytes())
+        ts.append((int(m.value), int(b.timeslot)))
+    out.append("/-- (IPSC timeslot value, the `timeslot` attribute `from_hytera_ipsc` gives the burst) -/")
+    out.append("def ipscTimeslots : List (Nat × Nat) := [" + ", ".join(f"({a}, {b})" for a, b in ts) + "]")
+    return out
 
 
 def probe_centres(pats):
